@@ -1940,6 +1940,11 @@ package rtcp
 //@   ensures[C09] header: err == nil ==> p.Header.Count == 15 && p.Header.Type == TypeTransportSpecificFeedback
 //@   ensures[C09] encodes: err == nil && err2 == nil ==> p.Header.Count <= 31
 
+//@ func lemmaReencodeCCFBPre(raw []byte) (p CCFeedbackReport, err error, err2 error)
+//@   lemma
+//@   requires frame: len(raw) <= 4*65536 && len(raw)%4 == 0
+//@   ensures[C09] tiled: err == nil ==> 12 + specCCBlocksLen(p.ReportBlocks, len(p.ReportBlocks)) == len(raw)
+
 //@ func lemmaRoundTripRaw(p RawPacket) (q RawPacket, err error, err2 error)
 //@   lemma
 //@   ensures[C02] encodes: err == nil
